@@ -36,6 +36,8 @@ def feature_sig(case):
         f.append("non8")
     if g("cfg.enable_tpl_la"):
         f.append("tpl")
+    if g("cfg.over_bndry_blk", -1) == 0 and (g("width", 64) % 64 or g("height", 64) % 64):
+        f.append("noovb")  # blocks over the picture boundary disallowed on a picture that is not a whole number of SBs
     return "+".join(f) if f else "base"
 
 
